@@ -235,7 +235,10 @@ add('C05',
           job('slab_tsan', 'c05_tsan.cpp', flavour='tsan', shards={'quick': 4, 'thorough': 8}),
           # the region-tracking configuration of slab.hpp (a shared tree of all frames, under its own mutex) with free-running threads
           job('slab_tsan_track_regions', 'c05_tsan.cpp', flavour='tsan', defines=['-DFRG_SLAB_TRACK_REGIONS'], shards={'quick': 3, 'thorough': 6}),
-          job('slab_sched_track_regions', 'c05_slab_sched.cpp', defines=['-DFRG_SLAB_TRACK_REGIONS'], shards={'quick': 4, 'thorough': 8}, quick_args=['--scale', '0.3'])],
+          job('slab_sched_track_regions', 'c05_slab_sched.cpp', defines=['-DFRG_SLAB_TRACK_REGIONS'], shards={'quick': 4, 'thorough': 8}, quick_args=['--scale', '0.3']),
+          # a policy with the optional allocation-trace hooks: the pool's tracing code then runs (outside its locks) in every thread
+          job('slab_tsan_trace_hooks', 'c05_tsan.cpp', flavour='tsan', defines=['-DC05_TRACE_HOOKS'], shards={'quick': 3, 'thorough': 6}),
+          job('slab_sched_trace_hooks', 'c05_slab_sched.cpp', defines=['-DC05_TRACE_HOOKS'], shards={'quick': 4, 'thorough': 8}, quick_args=['--scale', '0.3'])],
     min_evaluations={'quick': 5000, 'thorough': 100000},
     min_counters={'schedules': 5000, 'dfs_spaces_exhausted': 4, 'reentrant_policy_allocations': 1000, 'schedules_with_concurrent_slab_construction_or_extra_map': 500, 'tsan_allocations': 100000, 'tsan_cross_thread_frees': 1000, 'tsan_reallocs': 1000},
     assumptions=['the controlled scheduler explores sequentially consistent interleavings at lock operations, hook points and policy callbacks; data races on pool state are observed by ThreadSanitizer in the free-running runs',
